@@ -88,6 +88,21 @@ def bfgsStep (factor : M → Option M) (st : BFGS V M) : BfgsOp V → BFGS V M
   | .accept => bfgsAccept st
   | .reject => bfgsReject st
 
+/-- with the queue of pending updates: `update(m, g)` only queues (unless `greedy`), `accept()` first
+    applies the queued updates in order (`consolidate_updates`) and empties the queue, `reject()`
+    restores the last accepted state and empties the queue -/
+inductive BfgsQOp (V : Type) where
+  | direct (m g : V)      -- `kinetic_energy_gradient(p, m, g)`: applied at once
+  | queued (m g : V)      -- `update(m, g)`
+  | accept
+  | reject
+
+def bfgsQStep (factor : M → Option M) (s : BFGS V M × List (V × V)) : BfgsQOp V → BFGS V M × List (V × V)
+  | .direct m g => (bfgsUpdate la factor s.1 m g, s.2)
+  | .queued m g => (s.1, s.2 ++ [(m, g)])
+  | .accept => (bfgsAccept (s.2.foldl (fun st mg => bfgsUpdate la factor st mg.1 mg.2) s.1), [])
+  | .reject => (bfgsReject s.1, [])
+
 def bfgsInit (Minv F : M) (m g : V) : BFGS V M :=
   { Minv := Minv, F := F, m := m, g := g, bMinv := Minv, bF := F, bm := m, bg := g }
 
